@@ -22,7 +22,7 @@
 (* The driver (drive/expr.cpp) builds each expression with real C++ object  *)
 (* lifetimes and compares root and every held node with Den.                *)
 (***************************************************************************)
-EXTENDS Lattice, TLC, Json, Sequences
+EXTENDS Lattice, TLC, Json, Sequences, FiniteSets, SequencesExt
 
 CONSTANTS Family,    \* which family of expressions Init enumerates
           Emit
@@ -122,10 +122,22 @@ Annot(n, s) ==
                         cells |-> EncSet(Den(n, s)), vol |-> Cardinality(Den(n, s))]
     [] n.k = "let"  -> [k |-> "let", def |-> Annot(n.def, {}), body |-> Annot(n.body, Den(n.def, {}))]
 
+(* ---- provenance (C07): the instances of every original -------------------- *)
+(* every occurrence of leaf i in the expression is an INSTANCE of original i   *)
+(* whose run transform is the composition of all transforms above it.          *)
+RECURSIVE Inst(_, _, _)
+Inst(n, T, sdef) ==     \* T: transform accumulated from the root; sdef: the shared definition (for "ref")
+  CASE n.k = "leaf" -> { [i |-> n.i, g |-> Comp(T, Tf(n.t))] }
+    [] n.k = "ref"  -> Inst(sdef, Comp(T, Tf(n.t)), sdef)
+    [] n.k = "op"   -> UNION { Inst(n.ch[j], Comp(T, Tf(n.t)), sdef) : j \in 1..Len(n.ch) }
+    [] n.k = "let"  -> Inst(n.body, T, n.def)
+Instances(t) == Inst(t, Id3, [k |-> "leaf", i |-> 1, t |-> "none"])
+InstJson(t) == SetToSeq({ [i |-> e.i, ax |-> e.g.ax, sg |-> e.g.sg, tr |-> e.g.tr] : e \in Instances(t) })
+
 VARIABLES tree, done
 Init == tree \in Fam(Family) /\ done = FALSE
 Next == /\ ~done /\ done' = TRUE /\ UNCHANGED tree
-        /\ (Emit => PrintT(<<"BEH", ToJson(Annot(tree, {}))>>))
+        /\ (Emit => PrintT(<<"BEH", ToJson(Annot(tree, {}) @@ [inst |-> InstJson(tree)])>>))
 
 (* the evaluator's rewrites are sound on every enumerated expression         *)
 RewritesSound == Eval(tree) = Den(tree, {})
